@@ -822,7 +822,9 @@ fn limitstorm_main(o: &Opts) -> i32 {
     let keynames: Vec<String> = (1..=nthreads).map(|i| format!("k{i}")).collect();
     let vlen = 3 + (seed % 5) as usize;
     let footprint = FeoxStore::verif_record_overhead() + 2 + vlen;
-    let lim = (admit * footprint) as i64;
+    // (with growers: their base records are part of the budget; a document base is 4 bytes longer than a plain one)
+    let ngrow: usize = o.num("growers", 0usize).min(nthreads.saturating_sub(1));
+    let lim = (admit.max(ngrow + 1) * footprint + 4 * ngrow.div_ceil(3)) as i64;
     let prog = json!({"cfg": {"pers": false, "ttl": false, "cache": false, "lim": lim}, "keys": keynames, "init": [], "threads": []});
     feoxdb::verif::set_now(NOW);
     let (sh, _) = setup_program(&prog, "");
@@ -831,8 +833,35 @@ fn limitstorm_main(o: &Opts) -> i32 {
     let peak = Arc::new(AtomicU64::new(0));
     let admitted = Arc::new(AtomicU64::new(0));
     let mut hs = Vec::new();
+    // --growers n: the first n threads own a key that is PRESENT (part of the budget) and keep asking for a replacement
+    // that can never fit (compare-and-swap, plain overwrite, JSON patch on a document): every one of these calls is
+    // refused with OutOfMemory and must not move the usage at all while the creators compete for what is left
+    let growers: usize = o.num("growers", 0usize).min(nthreads.saturating_sub(1));
+    let refused = Arc::new(AtomicU64::new(0));
+    for t in 0..growers {
+        let base = if t % 3 == 2 { format!("{{\"n\":{}}}", 1).into_bytes() } else { vec![b'g'; vlen] };
+        sh.store.insert(&sh.keys[t], &base).expect("grower base");
+    }
     for t in 0..nthreads {
-        let (sh2, stop2, peak2, adm2) = (sh.clone(), stop.clone(), peak.clone(), admitted.clone());
+        let (sh2, stop2, peak2, adm2, ref2) = (sh.clone(), stop.clone(), peak.clone(), admitted.clone(), refused.clone());
+        if t < growers {
+            hs.push(std::thread::spawn(move || {
+                let key = sh2.keys[t].clone();
+                let base = if t % 3 == 2 { format!("{{\"n\":{}}}", 1).into_bytes() } else { vec![b'g'; vlen] };
+                let huge = vec![b'H'; lim as usize + 64];
+                let patch = format!("[{{\"op\":\"add\",\"path\":\"/p\",\"value\":\"{}\"}}]", "a".repeat(lim as usize + 64));
+                while !stop2.load(Ordering::Relaxed) {
+                    let r = match t % 3 {
+                        0 => sh2.store.compare_and_swap(&key, &base, &huge).map(|_| ()),
+                        1 => sh2.store.insert(&key, &huge).map(|_| ()),
+                        _ => sh2.store.json_patch(&key, patch.as_bytes()),
+                    };
+                    if r.is_err() { ref2.fetch_add(1, Ordering::Relaxed); }
+                    peak2.fetch_max(sh2.store.memory_usage() as u64, Ordering::Relaxed);
+                }
+            }));
+            continue;
+        }
         hs.push(std::thread::spawn(move || {
             let key = sh2.keys[t].clone();
             let val = vec![b'v'; vlen];
@@ -857,7 +886,7 @@ fn limitstorm_main(o: &Opts) -> i32 {
     let ev = vec![reset, json!({"e": "mem", "v": peak.load(Ordering::SeqCst), "own": 1}), final_event(&sh.store, &sh.keys)];
     for e in &ev { writeln!(out, "{}", e).unwrap(); }
     out.flush().unwrap();
-    println!("{}", json!({"rounds": 1, "events": ev.len(), "admitted": admitted.load(Ordering::SeqCst), "peak": peak.load(Ordering::SeqCst), "lim": lim}));
+    println!("{}", json!({"rounds": 1, "events": ev.len(), "admitted": admitted.load(Ordering::SeqCst), "refused_growers": refused.load(Ordering::SeqCst), "peak": peak.load(Ordering::SeqCst), "lim": lim}));
     0
 }
 
